@@ -57,7 +57,10 @@ func (g *G) Strs(max int) []string {
 	return out
 }
 
-var purls = []string{"pkg:npm/foo@1.0", "pkg:npm/bar@2.0", "pkg:golang/x/y@v1", "pkg:/npm/odd@1", "pkg:deb/debian/z@1", "notapurl", ""}
+// package urls of several types, some of which are prefixes of others (go / golang, git / github, gen /
+// generic), the "pkg:/type/" spelling some tools write, and "pkg://host/..." (an empty type)
+var purls = []string{"pkg:npm/foo@1.0", "pkg:npm/bar@2.0", "pkg:golang/x/y@v1", "pkg:/npm/odd@1", "pkg:deb/debian/z@1", "notapurl", "",
+	"pkg:github/o/r@1", "pkg:generic/thing@1", "pkg://github.com/example/app@v1.0.0", "pkg:go/short@1"}
 
 func (g *G) HashMap(max int) map[int32]string {
 	n := g.Int(max + 1)
